@@ -509,3 +509,79 @@ pub fn http_once(body: Vec<u8>, chunked: bool) -> std::io::Result<(u16, std::thr
     });
     Ok((port, h))
 }
+
+
+/// An HTTP server that answers one request with headers and the first part of a body, then keeps the connection
+/// open without sending anything more until the returned flag is set (or `hold` has passed).
+pub fn http_stall(prefix: Vec<u8>, announced_len: usize, chunked: bool, hold: std::time::Duration) -> std::io::Result<(u16, std::sync::Arc<std::sync::atomic::AtomicBool>, std::thread::JoinHandle<()>)> {
+    use std::io::{Read, Write};
+    use std::sync::atomic::{AtomicBool, Ordering};
+    let listener = std::net::TcpListener::bind("127.0.0.1:0")?;
+    let port = listener.local_addr()?.port();
+    let stop = std::sync::Arc::new(AtomicBool::new(false));
+    let stop2 = stop.clone();
+    let h = std::thread::spawn(move || {
+        listener.set_nonblocking(true).ok();
+        let t0 = std::time::Instant::now();
+        let mut accepted = None;
+        while t0.elapsed() < hold && !stop2.load(Ordering::SeqCst) {
+            match listener.accept() {
+                Ok(x) => {
+                    accepted = Some(x);
+                    break;
+                }
+                Err(_) => std::thread::sleep(std::time::Duration::from_micros(300)),
+            }
+        }
+        if let Some((mut s, _)) = accepted {
+            s.set_nonblocking(false).ok();
+            s.set_read_timeout(Some(std::time::Duration::from_secs(5))).ok();
+            let mut req = Vec::new();
+            let mut buf = [0u8; 2048];
+            while !req.windows(4).any(|w| w == b"\r\n\r\n") {
+                match s.read(&mut buf) {
+                    Ok(0) | Err(_) => break,
+                    Ok(n) => req.extend_from_slice(&buf[.. n]),
+                }
+            }
+            let mut resp: Vec<u8> = Vec::new();
+            if chunked {
+                resp.extend(b"HTTP/1.1 200 OK\r\nContent-Type: application/json\r\nTransfer-Encoding: chunked\r\n\r\n");
+                resp.extend(format!("{:x}\r\n", announced_len).bytes());
+            } else {
+                resp.extend(format!("HTTP/1.1 200 OK\r\nContent-Type: application/json\r\nContent-Length: {announced_len}\r\n\r\n").bytes());
+            }
+            resp.extend(&prefix);
+            let _ = s.write_all(&resp);
+            let _ = s.flush();
+            while t0.elapsed() < hold && !stop2.load(Ordering::SeqCst) {
+                std::thread::sleep(std::time::Duration::from_millis(5));
+            }
+        }
+    });
+    Ok((port, stop, h))
+}
+
+/// nesting depth (open objects + arrays, outside strings) at the end of a JSON text prefix
+pub fn json_depth_at_end(prefix: &[u8]) -> usize {
+    let (mut depth, mut in_str, mut esc) = (0usize, false, false);
+    for &b in prefix {
+        if in_str {
+            if esc {
+                esc = false;
+            } else if b == b'\\' {
+                esc = true;
+            } else if b == b'"' {
+                in_str = false;
+            }
+        } else {
+            match b {
+                b'"' => in_str = true,
+                b'{' | b'[' => depth += 1,
+                b'}' | b']' => depth = depth.saturating_sub(1),
+                _ => {}
+            }
+        }
+    }
+    depth
+}
